@@ -63,13 +63,44 @@ func zzStack(samples [][]float32, shape []int, axis int) ([]float32, []int) {
 	return out, full
 }
 
+// zzC16SeedRegion: Softmax/LogSoftmax along the last axis of a batch. gorgonia's last-axis kernel takes
+// every row's maximum as max(x[0] of the WHOLE batch, row[1:]); where that differs from the row's own
+// maximum a sample's result depends on the first sample of the batch (C09 known finding seen through C16).
+// rows[s] is sample s (one row each); the batch is evaluated in the given and in the reversed order.
+func zzC16SeedRegion(v *zzverif.T, rows [][]float32, n int) {
+	hit := false
+	for _, first := range []int{0, n - 1} {
+		for s := 0; s < n; s++ {
+			if s == first {
+				continue
+			}
+			seeded, truth := rows[first][0], rows[s][0]
+			for _, x := range rows[s][1:] {
+				if x > seeded {
+					seeded = x
+				}
+				if x > truth {
+					truth = x
+				}
+			}
+			if seeded != truth {
+				hit = true
+			}
+		}
+	}
+	v.Region("C16.softmax-last-axis-row-maximum-seeded-with-first-sample", hit)
+}
+
 // H_C16: samples in a batch do not influence one another.
 //
 // case: either sample = "mlp"|"gru"|"scaler", or the graph lists of H_C01 with inits;
 // batched: specs "name:shape:axis" of the per-sample inputs (shape with extent 1 on the batch axis);
 // outaxis []int: batch axis of each graph output; n: batch size
 func H_C16(v *zzverif.T) {
-	v.Ring()
+	grid := v.Has("grid") && v.CBool("grid")
+	if !grid {
+		v.Ring()
+	}
 	n := v.CInt("n")
 	var mp *onnx.ModelProto
 	var outputs []string
@@ -108,8 +139,24 @@ func H_C16(v *zzverif.T) {
 		}
 		axes[i] = zzAtoi(pp[2])
 		for s := 0; s < n; s++ {
+			if grid {
+				// IEEE arithmetic on the grid {-200, 0, 200}: every exponential is exactly 0, 1 or +Inf
+				d := make([]float32, zzverif.Prod(shapes[i]))
+				for k := range d {
+					g := v.IntIn(pp[0]+"_s"+string(rune('0'+s))+"_"+string(rune('0'+k)), -1, 1)
+					if v.CBool("enumerate") {
+						g = v.Concrete(g) // one path per grid point (larger batches: the FP query over all points at once is out of reach)
+					}
+					d[k] = float32(200 * g)
+				}
+				data[i] = append(data[i], d)
+				continue
+			}
 			data[i] = append(data[i], zzverif.Syms[float32](v, pp[0]+"_s"+string(rune('0'+s)), zzverif.Prod(shapes[i])))
 		}
+	}
+	if grid {
+		zzC16SeedRegion(v, data[0], n)
 	}
 	run := func(tag string, in Tensors) (Tensors, bool) {
 		var out Tensors
